@@ -55,14 +55,15 @@ func runStress(in []string) []string {
 			defer wg.Done()
 			r := rand.New(rand.NewSource(int64(seed*1000 + w)))
 			mine := map[int]string{} // tag -> id of own live messages
+			marked := map[int]bool{} // own messages whose MarkSeen succeeded
 			var order []int
 			for i := 0; i < nops; i++ {
-				mb := 1 + r.Intn(3) // mailboxes 1..3 are never purged; 4 is the purge playground
+				mb := 1 + r.Intn(2) // mailboxes 1, 2 (one lock bucket) are never purged; 3 (same bucket) and 4 are purged
 				switch k := r.Intn(20); {
 				case k < 8:
 					tag := w*100000 + i
 					if r.Intn(6) == 0 {
-						mb = 4
+						mb = 3 + r.Intn(2)
 					}
 					id, err := e.store.AddMessage(delivery(mbNames[mb], tag, 20+r.Intn(200)))
 					if err != nil {
@@ -72,7 +73,7 @@ func runStress(in []string) []string {
 					e.tagMu.Lock()
 					e.issued[mb] = append(e.issued[mb], id)
 					e.tagMu.Unlock()
-					if mb != 4 {
+					if mb < 3 {
 						mine[tag] = id
 						order = append(order, tag)
 						added[w] = append(added[w], rec{mb, tag})
@@ -101,9 +102,15 @@ func runStress(in []string) []string {
 							fail("own live message %d not found: %v", tag, err)
 						} else if tagOf(m) != fmt.Sprint(tag) {
 							fail("get returned another message")
+						} else if marked[tag] && !m.Seen() {
+							fail("seen flag of %d lost", tag)
 						}
 					}
-					_ = e.store.MarkSeen(mbNames[box], mine[tag])
+					if err := e.store.MarkSeen(mbNames[box], mine[tag]); err == nil {
+						marked[tag] = true
+					} else if capv == 0 && maxkb == 0 {
+						fail("mark-seen of own live message failed: %v", err)
+					}
 				case k < 15 && len(order) > 0:
 					tag := order[r.Intn(len(order))]
 					if removed[w][tag] {
@@ -124,7 +131,7 @@ func runStress(in []string) []string {
 						removed[w][tag] = true
 					}
 				case k < 16:
-					if err := e.store.PurgeMessages(mbNames[4]); err != nil {
+					if err := e.store.PurgeMessages(mbNames[3+r.Intn(2)]); err != nil {
 						fail("purge failed: %v", err)
 					}
 				case k < 17:
@@ -145,7 +152,7 @@ func runStress(in []string) []string {
 		fail("duplicate id")
 	}
 	if capv == 0 && maxkb == 0 {
-		for mb := 1; mb <= 3; mb++ {
+		for mb := 1; mb <= 2; mb++ {
 			ms, err := e.store.GetMessages(mbNames[mb])
 			if err != nil {
 				fail("final list failed")
